@@ -31,10 +31,12 @@ Section C08.
      Inv st: for every criterion, each candidate is admitted by every requirement of the criterion
      (under the matching mode findMatches uses for that list) and is not an incompatibility; every
      information entry names the criterion's package and is a requirement its parent has and
-     getDependencies kept; every pinned version had the requirements kept for the extras known at
-     pin time (last one per package) merged into the criteria; the direct dependencies are there. *)
+     getDependencies kept for extras contained in those of the parent's criterion; the extras of a
+     criterion come from its information entries; every pinned version had the requirements kept
+     for the extras known at pin time (last one per package) merged into the criteria; the direct
+     dependencies are there. *)
   Theorem C08_pin_preserves_Inv : forall st n crit cand upd,
-    WF -> Invariant st -> crit_get (criteria_of st) n = Some crit ->
+    WF -> Invariant st -> crit_get (criteria_of st) n = Some crit -> In cand (c_cands crit) ->
     get_criteria_to_update c_versions c_requirements c_matching marker_true has_pre constraint_ok match_pre ver_lt root
       st cand (c_extras crit) = Ok upd ->
     Invariant (apply_pin st n cand upd).
@@ -79,9 +81,10 @@ Section C08.
      unless that package was pinned again later), that names the target's package, and whose marker
      is absent or evaluated true for some set E of extras; in particular a requirement whose marker
      is false whatever the extras never yields an edge.
-     MISSING with respect to the property: E is the set of extras in force when par was pinned,
-     which may contain extras requested only by versions that are no longer in the graph
-     (F-C08-3, refuted below). *)
+     E only holds extras that some requirement on the source's package requests.
+     MISSING with respect to the property: E is the set of extras in force when par was pinned
+     (the union over all information of the criterion), which may contain extras requested only by
+     versions that are no longer in the graph (F-C08-3, refuted below). *)
   Theorem C08_false_marker_nothing_partial : forall fuel g f t rqv ty,
     WF -> Resolve fuel = Ok g -> In (f, t, rqv, ty) (g_edges g) ->
     exists fv tv par d E l,
@@ -89,7 +92,9 @@ Section C08.
       (vk_name par = vk_name fv \/ (par = vkey_zero /\ fv = root)) /\
       c_requirements par = Ok l /\ In d l /\
       rq_ver d = rqv /\ rq_type d = ty /\ rq_name d = vk_name tv /\
-      keep marker_true E d = Ok true.
+      keep marker_true E d = Ok true /\
+      (forall e, In e E -> exists par' d' l', c_requirements par' = Ok l' /\ In d' l' /\
+                            rq_name d' = vk_name par /\ In e (extras_of_type (rq_type d'))).
   Proof. intros fuel g f t rqv ty W. exact (false_marker_nothing _ _ _ _ _ _ _ _ _ W fuel g f t rqv ty). Qed.
 
   (* every edge leads to a selected version that satisfies its specifier under pip's prerelease rule
